@@ -148,7 +148,9 @@ GLOBAL_KEYS: dict = {}
 
 def check_dict_case(ctx, terms, exp):
     from distributed_shampoo.utils.shampoo_checkpoint_utils import flatten, unflatten
-    leaves = {p: torch.tensor(float(i)) for i, (p, kind) in enumerate(terms) if kind == "leaf"}
+    # every third leaf is the RESULT of an operation on a tensor that requires grad (it carries a grad_fn), as state derived from parameters does
+    leaves = {p: (torch.tensor(float(i)) if i % 3 else torch.nn.Parameter(torch.tensor(float(i))) * 1.0)
+              for i, (p, kind) in enumerate(terms) if kind == "leaf"}
     d = build_from_terminals(terms, leaves)
     probs = []
     try:
@@ -190,11 +192,15 @@ def random_term(rng, depth):
     if kind == "dict":
         return ("dict", [(rng.choice(["a", "b", 0, 1, "k.1"]) if True else None, random_term(rng, depth - 1)) for _ in range(n)])
     if kind == "mod":
-        return ("mod", [(f"f{i}", random_term(rng, depth - 1)) for i in range(n)])
+        kids = [(f"f{i}", random_term(rng, depth - 1)) for i in range(n)]
+        mods = [name for name, sub in kids if sub[0] == "mod"]
+        if mods and rng.random() < 0.4:          # the SAME sub-module object reachable through a second attribute
+            kids.append(("g_alias", ("alias", rng.choice(mods))))
+        return ("mod", kids)
     return (kind, [random_term(rng, depth - 1) for _ in range(n)])
 
 
-def build_obj(term, counter, tensors, scalars, path=()):
+def build_obj(term, counter, tensors, scalars, path=(), share=True):
     from optimizer_modules import OptimizerModule
     k = term[0]
     if k == "tensor":
@@ -223,8 +229,26 @@ def build_obj(term, counter, tensors, scalars, path=()):
         class SubModule(OptimizerModule):          # the repository's own modules are (dataclass) subclasses
             pass
         m = SubModule() if len(path) % 2 == 1 else OptimizerModule()
+        starts = {}
         for name, sub in term[1]:
-            setattr(m, name, build_obj(sub, counter, tensors, scalars, path + (name,)))
+            if sub[0] == "alias":
+                target = next(s2 for n2, s2 in term[1] if n2 == sub[1])
+                if share:
+                    setattr(m, name, getattr(m, sub[1]))          # shared object; its tensors are reachable through both paths
+                    for pth, t in list(tensors.items()):
+                        if pth[:len(path) + 1] == path + (sub[1],):
+                            tensors[path + (name,) + pth[len(path) + 1:]] = t
+                    for pth, v in list(scalars.items()):
+                        if pth[:len(path) + 1] == path + (sub[1],):
+                            scalars[path + (name,) + pth[len(path) + 1:]] = v
+                else:                                             # structurally equal (same tensor kinds as the target), separate objects
+                    keep = counter[0]
+                    counter[0] = starts[sub[1]]
+                    setattr(m, name, build_obj(target, counter, tensors, scalars, path + (name,), share))
+                    counter[0] = keep
+                continue
+            starts[name] = counter[0]
+            setattr(m, name, build_obj(sub, counter, tensors, scalars, path + (name,), share))
         return m
     if k == "dict":
         import collections
@@ -232,9 +256,9 @@ def build_obj(term, counter, tensors, scalars, path=()):
         for key, sub in term[1]:
             if key in d:
                 continue
-            d[key] = build_obj(sub, counter, tensors, scalars, path + (key,))
+            d[key] = build_obj(sub, counter, tensors, scalars, path + (key,), share)
         return d
-    seq = [build_obj(sub, counter, tensors, scalars, path + (i,)) for i, sub in enumerate(term[1])]
+    seq = [build_obj(sub, counter, tensors, scalars, path + (i,), share) for i, sub in enumerate(term[1])]
     return tuple(seq) if k == "tuple" else seq
 
 
@@ -255,6 +279,8 @@ def graph_terminals(term, path=()):
     if k == "mod":
         out = []
         for name, sub in term[1]:
+            if sub[0] == "alias":
+                sub = next(s2 for n2, s2 in term[1] if n2 == sub[1])
             out += graph_terminals(sub, path + (("attr", name),))
         return out or [(path, "empty")]
     out = []
@@ -287,7 +313,7 @@ def check_mod_case(ctx, term, store, exp):
     c1, t1, s1 = [0], {}, {}
     m1 = build_obj(term, c1, t1, s1)
     c2, t2, s2 = [1000], {}, {}
-    m2 = build_obj(term, c2, t2, s2)
+    m2 = build_obj(term, c2, t2, s2, share=False)      # structurally equal; shared sub-modules of the source are separate objects here
     try:
         sd = m1.state_dict(store_non_tensors=store)
         m2_probe = None
